@@ -32,7 +32,9 @@ var poolHostilePath = []string{"..", ".", "a/b", "/abs", "../x", "a/../../x", ".
 var poolEncoding = []string{`"`, `a"b`, `'`, `a: b`, `#c`, `a #c`, `\`, `a\nb`, `~`, `null`, `true`, `false`, `1e3`, `0x1f`, `123`, `1.5`, `- x`, `|`, `>`,
 	`&a`, `*a`, `!t`, `%d`, `@x`, `[a]`, `{a}`, `? k`, `---`, `...`, `<html>&`, `'''`, `"""`, "a\tb", "\x00", "\x01", "\x1f", "\x7f", "a\x08b",
 	"\u0085", " ", " ", "\ufeff", "é", "日本", `a, b`, `k=v`, `[[t]]`, `yes`, `No`, `on`, `0o17`, `.inf`, `2001-01-01`, `: x`, `x:`, `"q" 'r'`,
-	` lead`, `trail `, `A`, `\x41`, "`", `$x`, `a\`, `{{`, `=`, `a = "b"`, "\x1b[31m", "😀", `a'b"c`}
+	` lead`, `trail `, `A`, `\x41`, "`", `$x`, `a\`, `{{`, `=`, `a = "b"`, "\x1b[31m", "😀", `a'b"c`,
+	// texts that look like the escape sequences encoders emit (an encoder that post-processes its output trips over them)
+	`C:\u003cdir`, `\u0026`, `\u003e`, `\u2028`, `\"`, `\\`, `\/`, `\x3c`, `&amp;`, `&lt;b&gt;`, `%3C`, `\U0001F600`, `\t`, `\r\n`, `\0`}
 
 func sampled(p []string) *rapid.Generator[string] { return rapid.SampledFrom(p) }
 
@@ -380,3 +382,6 @@ func genWideForest(names *rapid.Generator[string]) *rapid.Generator[model.Forest
 		return f
 	})
 }
+
+// linkTarget: the target option is a relative name that is a symbolic link to the target directory ("t", "~t").
+func linkTarget(t string) bool { return t == "short" || t == "tilde" }
